@@ -498,6 +498,16 @@ def census_of(ctx, f0):
     return sorted(i for i in items if not i.split(":", 1)[1].startswith(("tracing", "Span::", "Metrics", "Level", "Callsite", "DefaultCallsite", "ValueSet", "FieldSet", "Interest", "Event::", "Identifier", "Metadata", "Kind", "__macro", "Field::")))
 
 
+def resolve(ctx, q):
+    """bodies of a pinned name; `name@T` selects, among several impls with one name (Sub<Duration> / Sub<Utc> for Utc), the one
+    whose second parameter's type contains T"""
+    base, _, sel = q.partition("@")
+    fs = [g for g in ctx.F.by_qname.get(base, []) if not g.in_testonly()]
+    if sel:
+        fs = [g for g in fs if len(g.locals) > 2 and sel in g.locals[2].s]
+    return fs
+
+
 def load():
     return common.load_table("pins.json")
 
@@ -524,8 +534,8 @@ def run(ctx, prop):
     ctx.floor(R, "pinned functions", len(mine), 1)
     for q in sorted(mine):
         e = mine[q]
-        fs = [g for g in ctx.F.by_qname.get(q, []) if not g.in_testonly()]
-        key = "pin %s" % _short(q)
+        fs = resolve(ctx, q)
+        key = "pin %s" % (_short(q.partition("@")[0]) + (("@" + q.partition("@")[2]) if "@" in q else ""))
         if len(fs) != 1:
             h = getattr(ctx.F, "helpers", {}).get(q)
             if h is not None:
@@ -558,8 +568,14 @@ def run(ctx, prop):
             # workspace / third-party call the reviewed body makes (with constant operands) must still be made somewhere in it
             cur = set(census_of(ctx, fs[0]))
             gone = sorted(set(e["census"]) - cur)
-            ctx.ob(R, key, not gone, ("%s no longer makes the calls %s that its reviewed body makes (%s)" % (_short(q), gone, e["why"])) if gone
-                   else "%s: all %d reviewed ingredients present" % (e["why"], len(e["census"])), fs[0].loc())
+            came = sorted(cur - set(e["census"]))
+            msg = []
+            if gone:
+                msg.append("no longer makes the calls %s that its reviewed body makes" % gone)
+            if came:
+                msg.append("makes the new calls %s (a primitive this small has no room for a second way of doing its job: a fast path, a clamp or a second acquisition changes what its callers can rely on)" % came)
+            ctx.ob(R, key, not msg, ("%s %s (%s)" % (_short(q), " and ".join(msg), e["why"])) if msg
+                   else "%s: exactly the %d reviewed ingredients" % (e["why"], len(e["census"])), fs[0].loc())
             continue
         f = ctx.F.body_of(fs[0]) if hasattr(ctx.F, "body_of") else fs[0]
         rows, is_open, calls = rows_of(ctx, f)
@@ -643,9 +659,9 @@ def run(ctx, prop):
                 ctx.ob(R, key, False, "%s deviates from its reference meaning (%s): the calls %s of the reference are gone from the function and %s are used instead" % (_short(q), e["why"], gone, came), f.loc())
                 continue
             if e.get("decided_only"):
-                # comparison / equality / hash of a key or order type: the structural comparison has a readable form (derived, or a
-                # one-line delegation); an implementation with loops or accumulators is another comparison until shown otherwise
-                ctx.ob(R, key, False, "%s is not written as the structural comparison of its contents (%s): it computes its result through locals / a loop the reference does not have - equal and unequal values may be confused" % (_short(q), e["why"]), f.loc())
+                # comparison / equality / hash of a key or order type, pass-through wrappers, signature checks: the reviewed meaning has a
+                # readable one-expression form; an implementation with loops or accumulators is another function until shown otherwise
+                ctx.ob(R, key, False, "%s cannot be read as its reference meaning (%s): it computes its result through mutable locals / a loop that the reviewed one-expression form does not have" % (_short(q), e["why"]), f.loc())
                 continue
             ctx.note("%s %s: a returned value goes through a local or a closure that cannot be read - not decided" % (R, _short(q)))
             ctx.ob(R, key, True, "undecided shape (not reported)", f.loc())
